@@ -63,7 +63,8 @@ def analyse_from_str(F, f, rep, R, module):
         for bi, t in g.calls():
             if not mir.call_matches(t, (TRYB,)): continue
             site = "%s bb%d line %s" % (g.where(), bi, g.blocks[bi]["line"])
-            sl = back_slice(F, g, t[2][0])
+            via_params = []
+            sl = back_slice(F, g, t[2][0], params=via_params)
             cs = sorted({mir.callee(t2) or "?" for _, _, t2 in sl})
             parses = [(h, b2, t2) for h, b2, t2 in sl if mir.call_matches(t2, (PARSE,))]
             caps = [x for x in sl if mir.call_matches(x[2], ("regex::Regex::captures",))]
@@ -86,6 +87,10 @@ def analyse_from_str(F, f, rep, R, module):
                 rep.ok(R + ".3", "rejection: numeric parse (%s) of group(s) %s" % ("/".join(sorted(tys)), sorted(names)), sample=cs, nontrivial_key="num" + ",".join(sorted(names)))
                 info["numeric_sites"].append({"fn": g, "bi": bi, "groups": sorted(names), "types": sorted(tys), "site": site})
                 for nm in names: info["parse_sites"].append((nm, sorted(tys)[0], site))
+                continue
+            if parses and tys <= set(INT_TYPES) and not caps and via_params and (not names or "?" in names):
+                # `|group| parse_number(group.as_str())?`: the text comes in through a parameter, the group is named by the callers
+                rep.undecided(R + ".3", "rejection-through-parameter:" + short, "a numeric-parse rejection whose text enters through parameter(s) %s: the capture group is named at the call sites" % sorted(set(via_params))[:3], site)
                 continue
             rep.bad(R + ".3", "extra-rejection:" + short,
                     "an Err exit of the parser that is neither 'no regex match' nor 'numeric parse failure of a capture group' (calls in its slice: %s)" % cs, site)
@@ -121,16 +126,18 @@ PLUMBING = ("Option::<T>::map", "Option::<std::result::Result<T, E>>::transpose"
             "regex::Regex::captures", NAME, PARSE, "IntoIterator>::into_iter", "ops::function::Fn", "FnMut", "FnOnce", "Result::<T, E>::map",
             "Option::<T>::is_some", "Option::<T>::as_ref", "std::fmt::format", "std::hint::must_use", "std::fmt::Arguments::<'a>::new",
             "core::fmt::rt::Argument::<'_>::new_", "ToString>::to_string", "std::fmt::Arguments::<'a>::from_str",
-            TRYB, "FromResidual", "from_residual")
+            TRYB, "FromResidual", "from_residual", "as std::iter::Iterator>::next", "Vec::<T>::new", "Vec::<T, A>::push")
 NO_DESCEND = ("map_err", "ok_or_else", "ok_or", "unwrap_or_else")
 
-def back_slice(F, fn, op, depth=0, seen=None):
+def back_slice(F, fn, op, depth=0, seen=None, params=None):
     """call sites (fn, bi, terminator) contributing to the value of `op`: follows every argument backwards,
     descends into closures passed as arguments (except error-constructing closures) and into local closures that are called."""
     if seen is None: seen = set()
     out = []
     if depth > 12: return out
     for o in mir.trace_op(fn, op, transparent=()):
+        if o.kind == "param" and params is not None and (fn.kind == "closure" and o.data != 1 or depth > 0 and fn.kind != "closure"):
+            params.append((fn.path, o.data))         # the value enters through a parameter: its producer is at some call site not followed here
         if o.kind == "call":
             k = (o.fn.path, o.data)
             if k in seen: continue
@@ -141,27 +148,27 @@ def back_slice(F, fn, op, depth=0, seen=None):
             for i, a in enumerate(t[2]):
                 if i >= 1 and cname in NO_DESCEND: continue
                 if i == 0 and mir.call_matches(t, (NAME,)): continue   # the Captures object itself
-                out += back_slice(F, o.fn, a, depth + 1, seen)
+                out += back_slice(F, o.fn, a, depth + 1, seen, params)
             # a call of a local closure / function: include what its result depends on
             tgt = F.fn(mir.callee(t) or "")
             if tgt is not None and (tgt.path, "ret") not in seen:
                 seen.add((tgt.path, "ret"))
-                out += back_slice(F, tgt, ["cp", [0]], depth + 1, seen)
+                out += back_slice(F, tgt, ["cp", [0]], depth + 1, seen, params)
         elif o.kind == "upvar":
             r = mir.resolve_upvar(F, o)
             if r is not None and (o.fn.path, "up", str(o.data)) not in seen:
                 seen.add((o.fn.path, "up", str(o.data)))
-                out += back_slice(F, r[0], r[1], depth + 1, seen)
+                out += back_slice(F, r[0], r[1], depth + 1, seen, params)
         elif o.kind == "agg":
             rv = mir.rv_at(o.fn, *o.data)
             if rv[1].get("k") == "closure":
                 c = F.fn(rv[1]["path"])
                 if c is not None and (c.path, "ret") not in seen:
                     seen.add((c.path, "ret"))
-                    out += back_slice(F, c, ["cp", [0]], depth + 1, seen)
+                    out += back_slice(F, c, ["cp", [0]], depth + 1, seen, params)
             else:
                 for a in rv[2]:
-                    out += back_slice(F, o.fn, a, depth + 1, seen)
+                    out += back_slice(F, o.fn, a, depth + 1, seen, params)
     return out
 
 def group_relations(groups):
@@ -282,11 +289,11 @@ def constant_fallbacks(F, rep, rule, fns):
                 elif verdict is False:
                     rep.bad(rule, "const-fallback:" + key, "numeric parse failure is replaced by a value that does not depend on the input (closure returns constants only)", site)
                 else:
-                    rep.bad(rule, "unrecognised-shape:" + key, "unwrap_or_else on a numeric parse result with a fallback that is not a local closure", site)
+                    rep.undecided(rule, "unrecognised-shape:" + key, "unwrap_or_else on a numeric parse result with a fallback that is not a local closure", site)
             elif meth in ("unwrap", "expect"):
                 rep.ok(rule, "numeric parse result unwrapped (panic discipline is C13's)", sample=site)
             else:
-                rep.bad(rule, "unrecognised-shape:" + key, "numeric parse result consumed by %s: not a recognised propagation idiom" % meth, site)
+                rep.undecided(rule, "unrecognised-shape:" + key, "numeric parse result consumed by %s: not a recognised propagation idiom" % meth, site)
         # match / if-let on a Result<_, ParseIntError>
         for bi, si, s in g.stmts():
             if s[0] == "=" and s[2][0] == "discr" and s[2][2].startswith("std::result::Result<") and "ParseIntError" in s[2][2]:
@@ -486,7 +493,7 @@ def numeric_classification(F, rep, rule, module, enums, floor):
         try:
             paths = [p for p in mir.enum_paths(g, limit=5000, stop_blocks=[bi]) if p[-1] == bi]
         except mir.TooManyPaths:
-            rep.bad(rule, "unrecognised-shape:" + key, "too many paths", site); continue
+            rep.undecided(rule, "unrecognised-shape:" + key, "too many paths", site); continue
         bad = None; nalt = 0
         for p in paths:
             for facts_ in path_facts(F, g, p):
@@ -551,7 +558,7 @@ def semver_separators(F, rep, groups):
             seps = strs[-2:]
             callee_fn = F.fn(mir.callee(t))
     if seps is None:
-        rep.bad(rule, "unrecognised-shape:display", "Display for SemVer does not pass constant separators to a local formatter", d.where()); return
+        rep.undecided(rule, "unrecognised-shape:display", "Display for SemVer does not pass constant separators to a local formatter", d.where()); return
     want = {"prerelease": seps[0], "buildmetadata": seps[1]}
     for g, sep in want.items():
         lit = groups.get(g, {}).get("preceding_literal")
@@ -643,7 +650,7 @@ def check_parity(F, rep, rule, tyname, anchor):
             cc = mir.callee(t) or ""
             if "PartialEq" in cc and cc.endswith("::eq"): rep.ok(rule, "normal-form note decided by exact equality with the printed form", nontrivial_key="fv%d" % bi)
             else: rep.bad(rule, "check-normal-form-compare", "check compares the input with the printed normal form using %s instead of exact equality: a non-normal spelling can be reported as normal" % cc, "%s bb%d" % (v.where(), bi))
-        if not cmpc: rep.bad(rule, "unrecognised-shape:format_validation", "format_validation does not compare the input with parsed.to_string()", v.where())
+        if not cmpc: rep.undecided(rule, "unrecognised-shape:format_validation", "format_validation does not compare the input with parsed.to_string()", v.where())
     # no other parser for this format: any other local callee whose name mentions the type's module and 'parse'
     for bi, t in f.calls():
         c = mir.callee(t) or ""
